@@ -149,6 +149,7 @@ static void gen_T(const KnotC &c, vf::Obs &o) {
           R ratio = E / (eps * S);
           double lr = ratio == 0 ? -1e9 : std::log2(ratio.get_d());
           if (lr > g_max_ratio_log2) g_max_ratio_log2 = lr;
+          vf::metric_max(std::string("log2_max_error_in_eps_units:B-spline generation/") + Scalar<T>::name, lr);
           VCHECK(o, ratio <= R(1 << 20), "function " << i << " interval " << j << ": coefficient error " << ratio.get_d() << " eps relative to sum|c_k|h^k exceeds 2^20");
         }
       }
